@@ -250,6 +250,10 @@ func (g *Gen) applyCall(ci *callInfo, st *State, r string, pos token.Pos, argOve
 		g.oblige(name, "decreases", []string{"TERM"}, r, lexLess(callee, caller), "recursive call decreases the measure", pos)
 	}
 	// havoc the modifies footprint
+	if c.NoFrame {
+		// the contract gives no frame: the caller keeps nothing about the pre-existing heap
+		g.havocAll(st)
+	}
 	if !c.Pure {
 		for _, m := range c.Modifies {
 			v := env.tr(m)
@@ -531,13 +535,13 @@ func (g *Gen) appendBuiltin(v ssa.Value, cc *ssa.CallCommon, st *State, r string
 	ncap := g.freshConst("ncap", "Int")
 	g.assume("(and (>= " + ncap + " " + newLen + ") (<= " + ncap + " 9223372036854775807))")
 	// the result is a declared constant (not a macro) so that it can occur in quantifier patterns
-	res := g.freshVal(v, st, r)
-	g.assume("(= " + res.T + " (ite " + fits + " (mkslice (s_arr " + s.T + ") (s_off " + s.T + ") " + newLen + " (s_cap " + s.T + ")) (mkslice " + arr + " 0 " + newLen + " " + ncap + ")))")
+	// the allocation counter is advanced first: the well-typedness facts of the result (its array is an
+	// allocated object) must be stated against the counter that includes a reallocated array
 	an := g.fresh("A")
 	g.define(an, "Int", "(ite "+fits+" "+st.A+" (+ "+st.A+" 1))")
-	oldA := st.A
 	st.A = an
-	_ = oldA
+	res := g.freshVal(v, st, r)
+	g.assume("(= " + res.T + " (ite " + fits + " (mkslice (s_arr " + s.T + ") (s_off " + s.T + ") " + newLen + " (s_cap " + s.T + ")) (mkslice " + arr + " 0 " + newLen + " " + ncap + ")))")
 	lenS := "(s_len " + s.T + ")"
 	g.instShifts = append(g.instShifts, lenS)
 	// group the scalar cells of an element by heap kind (one new heap version per kind)
@@ -558,7 +562,8 @@ func (g *Gen) appendBuiltin(v ssa.Value, cc *ssa.CallCommon, st *State, r string
 		hn := g.fresh("Hap_" + k)
 		g.declare(hn, g.u.heapSort(k))
 		st.H[k] = hn
-		outside := "(and (not (= (l_obj l) (l_obj (s_arr " + s.T + ")))) (not (= (l_obj l) (l_obj " + arr + "))))"
+		// in place: only cells of the array of s change; reallocation: only cells of the new array
+		outside := "(ite " + fits + " (not (= (l_obj l) (l_obj (s_arr " + s.T + ")))) (not (= (l_obj l) (l_obj " + arr + "))))"
 		g.assume("(forall ((l Loc)) (! (=> " + outside + " (= (select " + hn + " l) (select " + hold + " l))) :pattern ((select " + hn + " l))))")
 		g.frames = append(g.frames, havocFrame{kind: k, hn: hn, hpre: hold, conds: outside})
 		projs := map[string]bool{}
